@@ -1291,7 +1291,12 @@ static void DecodeFPUSt(Word Code) {
         return;
     }
 
-    if (ChkArgCnt(1, 1)) {
+    /* FXCH without operand: Intel defines ST(1) as the implied destination */
+
+    if ((ArgCnt == 0) && (Code == 0xd9c8)) {
+        PutCode(Code | 1);
+        AddPrefixes();
+    } else if (ChkArgCnt(1, 1)) {
         DecodeAdr(&ArgStr[1]);
         if (AdrType == TypeFReg) {
             PutCode(Code);
@@ -1555,7 +1560,13 @@ static void DecodeFCOM_FCOMP(Word Code) {
         return;
     }
 
-    if (ChkArgCnt(1, 1)) {
+    /* FCOM/FCOMP without operand: Intel defines ST(1) as the implied source */
+
+    if (ArgCnt == 0) {
+        BAsmCode[CodeLen]     = 0xd8;
+        BAsmCode[CodeLen + 1] = Code | 1;
+        CodeLen += 2;
+    } else if (ChkArgCnt(1, 1)) {
         DecodeAdr(&ArgStr[1]);
         switch (AdrType) {
         case TypeFReg:
